@@ -4,31 +4,33 @@
 EXTENDS FlagOps
 
 CONSTANT MaxLen
-VARIABLES order, hist, term, usz, dead, survived
-fvars == <<order, hist, term, usz, dead, survived>>
+VARIABLES order, kind, hist, term, usz, dead, how, survived
+fvars == <<order, kind, hist, term, usz, dead, how, survived>>
 
-FInit == /\ order \in Orders /\ hist = << >> /\ term = FALSE /\ usz = 0 /\ dead = FALSE
-         /\ survived = 0
+FInit == /\ order \in Orders /\ kind \in Kinds /\ hist = << >> /\ term = FALSE /\ usz = 0
+         /\ dead = FALSE /\ how = "none" /\ survived = 0
 
 Do(o) ==
     /\ ~dead /\ Len(hist) < MaxLen
     /\ hist' = Append(hist, o)
-    /\ CASE o = "a" -> /\ term' = TRUE /\ UNCHANGED <<usz, dead, survived>>
-         [] o = "d" -> /\ term' = FALSE /\ UNCHANGED <<usz, dead, survived>>
-         [] o = "u" -> /\ usz' = 3 /\ UNCHANGED <<term, dead, survived>>
-         [] OTHER -> LET s == RunActions(Actions(order), [term |-> term, usz |-> usz, dead |-> FALSE])
-                     IN /\ term' = s.term /\ usz' = s.usz /\ dead' = s.dead
+    /\ CASE o = "a" -> /\ term' = TRUE /\ UNCHANGED <<usz, dead, how, survived>>
+         [] o = "d" -> /\ term' = FALSE /\ UNCHANGED <<usz, dead, how, survived>>
+         [] o = "u" -> /\ usz' = 3 /\ UNCHANGED <<term, dead, how, survived>>
+         [] OTHER -> LET s == RunActions(IF o = "w" THEN WActions(order) ELSE Actions(order),
+                                         [St0 EXCEPT !.term = term, !.usz = usz],
+                                         IF o = "w" THEN "ign" ELSE kind)
+                     IN /\ term' = s.term /\ usz' = s.usz /\ dead' = s.dead /\ how' = s.how
                         /\ survived' = IF s.dead THEN survived ELSE survived + 1
-    /\ UNCHANGED order
+    /\ UNCHANGED <<order, kind>>
 
-FNext == (\E o \in {"a", "d", "u", "r"} : Do(o)) \/ UNCHANGED fvars
+FNext == (\E o \in {"a", "d", "u", "r", "w"} : Do(o)) \/ UNCHANGED fvars
 FSpec == FInit /\ [][FNext]_fvars
 
 \* C15: after a delivery that returned, the flags hold their registered values.
 FlagsSetAfterDelivery ==
     (hist # << >> /\ hist[Len(hist)] = "r" /\ ~dead) =>
         /\ usz = 7
-        /\ (order \in {"shutdown_first", "flag_first", "flag_only"} => term)
+        /\ (order \in {"shutdown_first", "flag_first", "flag_only", "default_first"} => term)
 
 \* C15: the process dies in a delivery iff the condition was true when the shutdown action ran:
 \* "shutdown first, arming flag second" survives exactly the first delivery of an unarmed run.
@@ -39,5 +41,18 @@ ShutdownIffArmed ==
 FlagFirstDiesAtOnce ==
     order = "flag_first" => (dead <=> "r" \in {hist[i] : i \in 1..Len(hist)})
 FlagOnlyNeverDies == order = "flag_only" => ~dead
-ModelAgrees == Run(order, hist).dead = dead /\ Len(Run(order, hist).steps) = survived
+\* The library only ever *sets* the flag (flag action); nothing else writes it: the application's
+\* armed flag stays armed across deliveries that the process survives.
+ArmedStaysArmed ==
+    \A i \in 1..Len(hist) :
+        (hist[i] = "a" /\ \A j \in (i+1)..Len(hist) : hist[j] # "d") => (term \/ dead)
+\* A conditional default is a conditional shutdown by the signal's own default action.
+DefaultIffArmed ==
+    order = "default_only" =>
+        (dead <=> (kind = "term" /\ \E i \in 1..Len(hist) : hist[i] = "r" /\
+                      \E j \in 1..(i-1) : hist[j] = "a" /\ \A k \in (j+1)..(i-1) : hist[k] # "d"))
+DiesTheRightWay ==
+    dead => how = (IF order \in {"default_first", "default_only"} THEN "signal" ELSE "exit")
+ModelAgrees == /\ Run(order, hist, kind).dead = dead /\ Run(order, hist, kind).how = how
+               /\ Len(Run(order, hist, kind).steps) = survived
 =============================================================================
